@@ -83,9 +83,15 @@ Definition expected_raw_key_users : list string :=
    "OracleKey <- Keeper.IterateOracle";
    "PendingExecuteClaimKey <- QueryServer.PendingExecuteClaim"].
 
+(* the repair of finding C01-1 removes exactly one call site (UnbondedOracle no longer deletes the cursor);
+   the model carries that as the switch c_unbond_del, probed on the real keeper by the harness *)
+Definition expected_writer_sites_repaired : list string :=
+  filter (fun x => negb (String.eqb x "DelLastEventNonceByOracle <- MsgServer.UnbondedOracle")) expected_writer_sites.
+
 Theorem gen_matches_model :
   gen_vote_threshold = vote_threshold /\ gen_tally_divisor = 100 /\
   gen_change_threshold = change_threshold /\ gen_max_keep = max_keep /\ gen_max_oracles = max_oracles /\
   gen_power_reduction = power_reduction /\
-  gen_writer_sites = expected_writer_sites /\ gen_raw_key_users = expected_raw_key_users.
-Proof. repeat split; reflexivity. Qed.
+  (gen_writer_sites = expected_writer_sites \/ gen_writer_sites = expected_writer_sites_repaired) /\
+  gen_raw_key_users = expected_raw_key_users.
+Proof. repeat split; first [reflexivity | left; reflexivity | right; reflexivity]. Qed.
